@@ -67,7 +67,15 @@ class Check:
         if race:
             cmd.insert(2, "-race")
         env = dict(os.environ, **GOENV)
-        r = subprocess.run(cmd + ["."], cwd=os.path.join(VERIF, "harness"), env=env,
+        hdir = os.path.join(VERIF, "harness")
+        if REPO != "/repo":
+            # mutant self-test: build the harness against a scratch copy of the library
+            hdir = self.path("harness-src")
+            if not os.path.exists(hdir):
+                shutil.copytree(os.path.join(VERIF, "harness"), hdir)
+                gm = open(os.path.join(hdir, "go.mod")).read().replace("=> /repo", "=> " + REPO)
+                open(os.path.join(hdir, "go.mod"), "w").write(gm)
+        r = subprocess.run(cmd + ["."], cwd=hdir, env=env,
                            stdout=subprocess.PIPE, stderr=subprocess.STDOUT, text=True)
         if r.returncode != 0:
             raise Inconclusive("harness build failed:\n" + r.stdout[-3000:])
@@ -136,6 +144,61 @@ class Check:
         n = int(m.group(1)) if m else 0
         self.mc_runs.append({"module": module, "generated": n, "env": {k: str(v) for k, v in env.items() if k != "VOUT"}})
         return n
+
+    def tlc_sim(self, module, cfg, out, num, depth, env=None, nproc=8, timeout=900):
+        """Behaviours from TLC simulation runs: the spec prints one JSON line per behaviour
+        (PrintT(ToJson(..)) from an invariant); nproc JVMs with different seeds."""
+        def one(i):
+            e = dict(env or {})
+            rc, o = self._tlc(module + ".tla", cfg, e, 1, timeout, "2g", "sim",
+                              extra=("-simulate", "num=%d" % (num // nproc + 1), "-depth", str(depth), "-seed", str(self.seed * 1000 + i)))
+            lines = []
+            for ln in o.splitlines():
+                if ln.startswith('"{'):
+                    try:
+                        lines.append(json.loads(ln))
+                    except Exception:
+                        pass
+            if not lines:
+                raise Inconclusive("simulation of %s produced no behaviours:\n%s" % (module, o[-2000:]))
+            return lines
+        with ThreadPoolExecutor(max_workers=NCPU) as ex:
+            res = list(ex.map(one, range(nproc)))
+        n = 0
+        seen = set()
+        with open(out, "w") as f:
+            for lines in res:
+                for ln in lines:
+                    if ln in seen:
+                        continue
+                    seen.add(ln)
+                    f.write(ln + "\n")
+                    n += 1
+        self.mc_runs.append({"module": module, "mode": "simulate", "behaviours": n, "depth": depth})
+        return n
+
+    def tlc_emit(self, module, cfg, env=None, workers=8, timeout=900, heap="8g", limit=None):
+        """Run a design-level exploration whose invariant PRINTS predicted histories
+        (PrintT(ToJson(..))); returns the distinct JSON strings.  Predictions are inputs
+        for replay on the real code, never verdicts."""
+        rc, o = self._tlc(module + ".tla", cfg, env, workers, timeout, heap, "emit")
+        gen, dist = self._counts(o)
+        self.states += dist
+        self.transitions += gen
+        self.mc_runs.append({"module": module, "cfg": cfg, "states_generated": gen, "distinct_states": dist, "mode": "predict"})
+        out, seen = [], set()
+        for ln in o.splitlines():
+            if ln.startswith('"{'):
+                try:
+                    x = json.loads(ln)
+                except Exception:
+                    continue
+                if x not in seen:
+                    seen.add(x)
+                    out.append(x)
+                    if limit and len(out) >= limit:
+                        break
+        return out
 
     def gen_parallel(self, jobs, timeout=1500, heap="4g"):
         """jobs: list of (module, env) with env["VOUT"] set.  Runs the TLC generators
@@ -308,7 +371,8 @@ class Check:
 
     def finish(self):
         kf = self.known_findings()
-        outdir = os.path.join(VERIF, "out", self.pid)
+        OUT = os.environ.get("VERIF_OUT")
+        outdir = os.path.join(OUT or os.path.join(VERIF, "out"), self.pid)
         os.makedirs(outdir, exist_ok=True)
         for f in os.listdir(outdir):
             if f.startswith("viol-") or f == "all-violations.ndjson":
@@ -361,7 +425,9 @@ class Check:
         ev = {"property_id": self.pid, "tier": self.tier, "seed": self.seed, "level": self.level,
               "coverage": cov, "assumptions": self.assumptions, "wall_s": round(wall, 1),
               "violations": len(new)}
-        with open(os.path.join(VERIF, "evidence", self.pid + ".json"), "w") as f:
+        evdir = os.path.join(OUT, "evidence") if OUT else os.path.join(VERIF, "evidence")
+        os.makedirs(evdir, exist_ok=True)
+        with open(os.path.join(evdir, self.pid + ".json"), "w") as f:
             json.dump(ev, f, indent=1)
         self.note("events=%d traces=%d states=%d nontrivial=%d viol=%d known=%d incon=%d wall=%.0fs" % (
             self.events, self.traces, self.states, self.nontrivial, len(new), sum(known_hits.values()), len(self.incon), wall))
